@@ -81,6 +81,8 @@ class TermScn:
             S.ctx["second"] = w.now - t1
             # children started by *this* process
             S.ctx["local_children"] = [(c.proc.name, c.proc.alive) for c in w.children if c.proc.parent is S.proc]
+            # every process started for a member gateway in this (all-local) topology, via-subs included
+            S.ctx["all_children"] = [(c.proc.name, c.proc.alive) for c in w.children]
             del chans
 
         S.main(main)
@@ -106,6 +108,9 @@ class TermScn:
         alive = [n for n, a in ctx["local_children"] if a]
         if alive:
             return V("child-left-behind", f"locally started child processes still alive after terminate: {alive}")
+        alive = [n for n, a in ctx.get("all_children", []) if a]
+        if alive:
+            return V("proxied-child-left-behind", f"processes started for member gateways (through a via gateway) still alive after terminate: {alive}")
         if ctx.get("second", 0) > 0.01:
             return V("second-terminate", f"a second terminate() on the empty group took {ctx['second']} s")
         return None, outcome
